@@ -191,6 +191,9 @@ func genOp(t *rapid.T, maxDur uint64, kind string) Op {
 		op.Drain = genDrain(t)
 	case "free":
 		op.N = rapid.OneOf(rapid.Uint64Range(1, 8), rapid.Just(uint64(1<<40)), rapid.Uint64Range(0, 300)).Draw(t, "n")
+		// index list shape: 0 distinct (from the end), 1 repeated indices (possibly more indices than sectors),
+		// 2 one index past the end, 3 distinct but unsorted
+		op.Off = uint64(rapid.SampledFrom([]int{0, 0, 0, 1, 1, 2, 3}).Draw(t, "indexShape"))
 		op.Drain = genDrain(t)
 	case "roots":
 		op.N = rapid.OneOf(rapid.Uint64Range(1, 4), rapid.Uint64Range(1, 5000), rapid.Just(uint64(1<<40)), rapid.Uint64Range(0, 1)).Draw(t, "n")
